@@ -869,9 +869,13 @@ impl CatalogPersistence {
         crate::verif::synced(&file);
         drop(file);
 
+        #[cfg(kahflane_turdb_verif)]
+        crate::verif::point("catalog_rename");
         std::fs::rename(&tmp_path, path).wrap_err_with(|| {
             format!("failed to move new catalog into place at '{}'", path.display())
         })?;
+        #[cfg(kahflane_turdb_verif)]
+        crate::verif::renamed(&tmp_path, path);
 
         Ok(())
     }
